@@ -266,7 +266,11 @@ def install_delay():
                     if not any(abs(mean - d) <= 1e-9 * max(1.0, abs(d)) for d in delays):
                         _viol(f"M-delay: emitted chain of order {n_order} and rate {rate} has mean delay {mean}, "
                               f"requested delays {list(delays)} (spreads {list(spreads)})")
-                if sorted((n, round(r_, 9)) for n, r_ in emitted) != wanted:
+                em = sorted((n, float(r_)) for n, r_ in emitted)
+                wt = sorted((n, float(r_)) for n, r_ in wanted)
+                same = len(em) == len(wt) and all(a[0] == b[0] and abs(a[1] - b[1]) <= 1e-7 * max(1.0, abs(b[1]))
+                                                  for a, b in zip(em, wt))
+                if not same:
                     _viol(f"M-delay: emitted (order, rate) chains {emitted} != required {wanted} for delays "
                           f"{list(delays)} spreads {list(spreads)}")
         except Exception as e:  # monitor must never break the run
